@@ -14,3 +14,35 @@ mod verif_phase {
         assert!(back.unwrap() == p);
     }
 }
+#[cfg(kani)]
+mod verif_roles_conv {
+    use super::*;
+    use crate::validator::{v2::BlockHeader, BlockNumber, PayloadHash, GenesisHash};
+    use zksync_consensus_crypto::keccak256::Keccak256;
+    fn no_backtrace() -> std::backtrace::Backtrace { std::backtrace::Backtrace::disabled() }
+    fn any_view() -> View {
+        let g: [u8; 32] = kani::any();
+        View { genesis: GenesisHash(Keccak256::from_bytes(g)), epoch: EpochNumber(kani::any()), number: ViewNumber(kani::any()) }
+    }
+    /// complete (loops bounded by the constant 32, unwinding assertions on): read(build(v)) == v for every View
+    #[kani::proof]
+    #[kani::unwind(34)]
+    #[kani::stub(std::backtrace::Backtrace::capture, no_backtrace)]
+    fn view_roundtrip() {
+        let v = any_view();
+        let back = <View as ProtoFmt>::read(&v.build());
+        assert!(back.is_ok());
+        assert!(back.unwrap() == v);
+    }
+    /// complete: read(build(c)) == c for every ReplicaCommit (view + block header)
+    #[kani::proof]
+    #[kani::unwind(34)]
+    #[kani::stub(std::backtrace::Backtrace::capture, no_backtrace)]
+    fn replica_commit_roundtrip() {
+        let p: [u8; 32] = kani::any();
+        let c = ReplicaCommit { view: any_view(), proposal: BlockHeader { number: BlockNumber(kani::any()), payload: PayloadHash(Keccak256::from_bytes(p)) } };
+        let back = <ReplicaCommit as ProtoFmt>::read(&c.build());
+        assert!(back.is_ok());
+        assert!(back.unwrap() == c);
+    }
+}
